@@ -3,6 +3,8 @@ package main
 // propTiers returns the (quick, thorough) budgets per property.
 func propTiers(id string) (tierConf, tierConf) {
 	switch id {
+	case "C18":
+		return tierConf{Runs: 20000, BudgetS: 60, ShrinkS: 60, DetRuns: 24}, tierConf{Runs: 3_000_000, BudgetS: 900, ShrinkS: 180, DetRuns: 100}
 	case "C20":
 		return tierConf{Runs: 24000, BudgetS: 60, ShrinkS: 40, DetRuns: 24}, tierConf{Runs: 1_000_000, BudgetS: 900, ShrinkS: 120, DetRuns: 100}
 	case "C02":
